@@ -150,7 +150,9 @@ fn cfg_for(k: u8) -> WorldCfg {
     match k {
         0 => {}
         1 => c.pool_fee = coin(1000, "uom"),
-        _ => c.tf_fee = vec![coin(8888, "uom"), coin(777, "uusdc")],
+        2 => c.tf_fee = vec![coin(8888, "uom"), coin(777, "uusdc")],
+        3 => c.pool_fee = coin(0, "uusd"), // no creation fee, denom differs from the token-factory fee
+        _ => c.pool_fee = coin(0, "uom"),  // no creation fee, same denom as the token-factory fee
     }
     c
 }
@@ -162,7 +164,9 @@ fn eval_case(w: &mut World, case: &CreateCase, rec: &mut Rec) -> bool {
     w.tf_fee = cfgw.tf_fee.clone();
     let need: Vec<(String, u128)> = {
         let mut m: std::collections::BTreeMap<String, u128> = std::collections::BTreeMap::new();
-        *m.entry(cfgw.pool_fee.denom.clone()).or_default() += cfgw.pool_fee.amount.u128();
+        if !cfgw.pool_fee.amount.is_zero() {
+            *m.entry(cfgw.pool_fee.denom.clone()).or_default() += cfgw.pool_fee.amount.u128();
+        }
         for t in &cfgw.tf_fee {
             *m.entry(t.denom.clone()).or_default() += t.amount.u128();
         }
@@ -186,10 +190,12 @@ fn eval_case(w: &mut World, case: &CreateCase, rec: &mut Rec) -> bool {
 pub fn creation_cases(tier: Tier) -> Vec<CreateCase> {
     let mut v = vec![];
     let s = |x: &[&str]| x.iter().map(|y| y.to_string()).collect::<Vec<String>>();
-    for k in 0u8..3 {
+    for k in 0u8..5 {
         let cfgw = cfg_for(k);
         let mut need: std::collections::BTreeMap<String, u128> = std::collections::BTreeMap::new();
-        *need.entry(cfgw.pool_fee.denom.clone()).or_default() += cfgw.pool_fee.amount.u128();
+        if !cfgw.pool_fee.amount.is_zero() {
+            *need.entry(cfgw.pool_fee.denom.clone()).or_default() += cfgw.pool_fee.amount.u128();
+        }
         for t in &cfgw.tf_fee {
             *need.entry(t.denom.clone()).or_default() += t.amount.u128();
         }
@@ -212,6 +218,16 @@ pub fn creation_cases(tier: Tier) -> Vec<CreateCase> {
         let mut f = exact.clone();
         f.push(("uweth".into(), 5));
         fund_sets.push(f);
+        let mut f = exact.clone();
+        f.push(("uusdc".into(), 12_345));
+        if !need.contains_key("uusdc") {
+            fund_sets.push(f);
+        }
+        let mut f = exact.clone();
+        f.push(("uusd".into(), 1));
+        if !need.contains_key("uusd") {
+            fund_sets.push(f);
+        }
         fund_sets.push(vec![("uweth".into(), 10_000)]);
         fund_sets.push(vec![]);
         for f in &fund_sets {
@@ -269,7 +285,7 @@ pub fn jobs(tier: Tier) -> Vec<Job> {
         explore_job(full, tier.pick(2, 3), Caps::default()),
         grid_job(
             "c16-creation-grid",
-            "CreatePool over asset lists (0-5 denoms incl. duplicates) x decimals length {n, n+1, n-1} x types {CP, SS amp 0/1/100} x fee sets (each <100%, total 20% / 20%+1bp) x identifiers (none, valid, 38-60 chars, illegal chars, duplicate, '1' vs generated 'p.1') x fund combinations {exact, +-1 each coin, missing coin, extra denom, none} under three fee configurations; non-trivial = setup accepted",
+            "CreatePool over asset lists (0-5 denoms incl. duplicates) x decimals length {n, n+1, n-1} x types {CP, SS amp 0/1/100} x fee sets (each <100%, total 20% / 20%+1bp) x identifiers (none, valid, 38-60 chars, illegal chars, duplicate, '1' vs generated 'p.1') x fund combinations {exact, +-1 each coin, missing coin, extra denom, none} under five fee configurations (incl. a zero creation fee); non-trivial = setup accepted",
             cfg,
             creation_cases(tier),
             eval_case,
